@@ -756,6 +756,9 @@ func (f *Frame) applyContract(c *Contract, fn *types.Func, recv Val, args []Val,
 		env2.vars["result"] = results[0]
 	}
 	for _, e := range c.Ensures {
+		if len(e.Props) > 0 {
+			continue // property-tagged clauses are proof obligations of that property only
+		}
 		st.assume(env2.evalBool(e.E))
 	}
 	if c.Trusted {
